@@ -335,3 +335,29 @@ _Q_MORE = (" ; query engine (query_more.go): 3..6 (thorough ..16) copies of the 
            "address run on the same server (id wrap-around); every query datagram's id = canonical uvarint of a counter value new to the process")
 PROPS["C07"]["rule"] += _Q_MORE + " (oracles query-completed-by-non-matching-datagram:*, duplicate-reply-affected-query:*, transaction-id-*)"
 PROPS["C14"]["rule"] += _Q_MORE + " (oracles query-did-not-return*, query-panicked:id-wraparound, goroutine-leak:query, transaction-leak, query-process-died:*)"
+
+# api engine, hand-built nodes files (harness/cmd/h/srv_api_nodesfile.go; model RunApi.ra_accept_s, lemmas ApiProofs Part 2b)
+PROPS["C05"]["rule"] += (" ; api engine, nodes files no Server wrote (kind nodesfile): lists written with WriteNodesToFile and loaded with "
+                         "AddNodesFromFile by 1-3 callers at once (spin barrier / queued behind a parked handler) next to AddNode calls of the same "
+                         "records, on a node without the security extension, on an enforcing node (NoSecurity=false) and on a node with a blocklist: "
+                         "records with the all-zero id (silent address, address answering the ping with an id, blocked address), the own id, ids valid / "
+                         "not valid for their public address, local-network addresses, one record several times in a file and across files, 4-byte and "
+                         "IPv4-mapped spelling, IPv6, one address under two ids, one id at two addresses, 10-12 records for one bucket, blocked "
+                         "addresses, port 0, records of earlier rounds, a file cut inside its last record, an empty file; what the node exports "
+                         "goes through a file into a second node with another id / the other security setting; after every round the table at rest is "
+                         "judged by the checkTable oracles and the line `atables` (RunApi.ra_accept_s = ra_accept, plus for an enforcing node: no entry "
+                         "whose id Security.node_id_secure rejects for its address, no entry owed to such a candidate)")
+# server engine, oracle-only: the caller's ServerConfig value changed after NewServer returned (harness/cmd/h/srv_cfgreuse.go)
+_CFG_REUSE = (" ; server engine, config value reused (srv_cfgreuse.go, oracle only): after NewServer(cfg) every field of *cfg (or a random subset; "
+              "NoSecurity, Passive, OnQuery, OnAnnouncePeer, PeerStore, WaitToReply, SendLimiter, IPBlocklist, DefaultWant, NodeId, PublicIP, "
+              "QueryResendDelay, StartingNodes, Store, Exp, Logger) is changed to the opposite / a hostile value, with and without building a sibling "
+              "node from the changed value, over 12 fixed + random build configurations (security on/off x passive x observing / vetoing query hook x "
+              "announce hook x peer store x WaitToReply x unlimited / exact-budget / 150 ms limiter x blocklist); the first node must behave as built: ")
+PROPS["C06"]["rule"] += _CFG_REUSE + ("senders with an id not valid for their public address are turned away by an enforcing node and admitted by a node that "
+                                      "does not enforce, senders with a valid id are admitted (oracles sender-with-invalid-id-admitted:enforcing-node-after-config-reuse, "
+                                      "eligible-sender-not-admitted:after-config-reuse)")
+PROPS["C19"]["rule"] += _CFG_REUSE + "a passive node stays silent and its queries carry ro=1, the blocklist it was built with stays in force (oracles *:after-config-reuse)"
+PROPS["C08"]["rule"] += _CFG_REUSE + ("a node that is not passive keeps answering (a vetoing hook, a limiter without budget, a blocklist covering everything put into the "
+                                      "value later do not silence it), consults its own hook, its own hook's veto holds, replies carry its own id (oracles *:after-config-reuse)")
+PROPS["C11"]["rule"] += _CFG_REUSE + "announces accepted before and after the change come back from get_peers with a token, the node's own announce hook is called"
+PROPS["C20"]["rule"] += _CFG_REUSE + "an exact-budget limiter stays in force (3 replies to 6 pings), a node configured to wait for budget sends every reply"
